@@ -14,6 +14,7 @@ import (
 	"kv/kj"
 )
 
+var reReturnNaN = regexp.MustCompile(`^(\d{4}-\d{2}-\d{2}) 00:00:00 \+0000 UTC: (NaN|[+-]Inf)%$`)
 var reReturnLine = regexp.MustCompile(`^(\d{4}-\d{2}-\d{2}) 00:00:00 \+0000 UTC: (-?\d+)\.(\d)%$`)
 
 type pfJob struct {
@@ -163,6 +164,12 @@ func observePortfolio(bin, root string, id int, jb pfJob) map[string]any {
 	if jb.F.Last > 0 {
 		win = append(win, "--last", fmt.Sprint(jb.F.Last))
 	}
+	if jb.F.AcctRx != "" {
+		win = append(win, "--account", jb.F.AcctRx)
+	}
+	if jb.F.CommRx != "" {
+		win = append(win, "--commodity", jb.F.CommRx)
+	}
 	wargs := append(append(append([]string{"portfolio", "weights", "--color=false", "--digits", "4", "-v", jb.F.V, "--universe", "u.yaml"}, margs...), win...), "j.knut")
 	rw := core.Run(core.RunOpts{Dir: dir, Timeout: 60 * time.Second}, bin, wargs...)
 	rargs := append(append([]string{"portfolio", "returns", "-v", jb.F.V}, win...), "j.knut")
@@ -181,6 +188,12 @@ func observePortfolio(bin, root string, id int, jb pfJob) map[string]any {
 		rets := []any{}
 		for _, ln := range strings.Split(strings.TrimSpace(rr.Stdout), "\n") {
 			if ln == "" {
+				continue
+			}
+			if m := reReturnNaN.FindStringSubmatch(ln); m != nil {
+				// not a number: a line, but no return (judged like any other value that is not the expected one)
+				z, _ := parseYMD(m[1])
+				rets = append(rets, map[string]any{"z": z, "r": 99999})
 				continue
 			}
 			m := reReturnLine.FindStringSubmatch(ln)
@@ -290,6 +303,16 @@ func C20(c *core.Ctx) {
 		}
 		if rng.Intn(4) == 0 {
 			f.Last = 1 + rng.Intn(3)
+		}
+		switch rng.Intn(6) { // account / commodity filters: the portfolio is a part of the asset / liability holdings
+		case 0:
+			f.CommRx = secs[rng.Intn(len(secs))]
+		case 1:
+			f.CommRx = "CHF|" + secs[0]
+		case 2:
+			f.AcctRx = "Depot"
+		case 3:
+			f.AcctRx = "Bank"
 		}
 		uni := map[string][]string{"CHF": {"Cash"}}
 		classes := [][]string{{"Stocks", "Tech"}, {"Stocks", "Pharma"}, {"Bonds", "Gov"}}
